@@ -117,7 +117,14 @@ template <class T> static void run_trunc(Src &s, Case &c, const char *tname)
     g.budget = tier() ? 96 : 40;
     T v{};
     gen(g, v);
+    // Cost control, not an oracle: when a prefix cuts off a count that governs elements which
+    // carry counts themselves, the decoder iterates over uninitialised counts at two levels
+    // (up to 65535 x 65535 push_backs - see the note at scrub_stack). Such prefixes are not run;
+    // every prefix that keeps those outer counts is (unread *leaf* counts cost <= 65535 each).
+    size_t first = 0;
+    enc_outer_count_end = &first;
     std::string ref = enc(v);
+    enc_outer_count_end = nullptr;
     c.log("type=%s v=", tname);
     c.log("%s", show(v).c_str());
     c.log(" wire=%zuB#%016llx", ref.size(), (unsigned long long)fnv64(ref));
@@ -129,10 +136,14 @@ template <class T> static void run_trunc(Src &s, Case &c, const char *tname)
     VP_CHECK(e == ref, "s20_wire", "%s value %s: serialize gives %s, documented layout %s", tname, show(v).c_str(),
              hexs(e).c_str(), hexs(ref).c_str());
     size_t n = e.size();
-    c.log(" prefixes=0..%zu", n);
+    c.log(" prefixes=%zu..%zu", first, n);
     if (n >= 16)
         c.label("encoding>=16B");
-    for (size_t L = 0; L <= n; L++)
+    if (first)
+        c.label("nested:prefixes_after_outer_counts");
+    else
+        c.label("all_prefixes");
+    for (size_t L = first; L <= n; L++)
     {
         Exact blk(e.data(), L); // the first L bytes, nothing readable after them
         igris::deserialize_buffer_storage st(igris::buffer(blk.c(), blk.n));
